@@ -428,7 +428,9 @@ func (m *Machine) resolveAnchors() error {
 			continue
 		}
 		if b, ok := sig.Results().At(0).Type().Underlying().(*types.Basic); ok && b.Kind() == types.Bool {
-			if set, ok := m.boolPredShape(fd); ok {
+			if set, ok := m.byteFuncSet(fd, true); ok {
+				m.predSets[f] = set
+			} else if set, ok := m.boolPredShape(fd); ok {
 				m.predSets[f] = set
 			}
 		}
@@ -447,7 +449,9 @@ func (m *Machine) resolveAnchors() error {
 			continue
 		}
 		if isByte(sig.Params().At(0).Type()) && isByte(sig.Results().At(0).Type()) {
-			if set, ok := m.caseHelperShape(fd); ok {
+			if set, ok := m.byteFuncSet(fd, false); ok {
+				m.helperSets[f] = set
+			} else if set, ok := m.caseHelperShape(fd); ok {
 				m.helperSets[f] = set
 			}
 		}
